@@ -35,6 +35,8 @@ QUERIES = {
     "file_has_enum": "?([entry ?TAG_enumeration_type] length 0 ?gt) 6",
     # the position of the value on top: a file's Dwarf counts among the files that opened, an argument's value among its values
     "pos_of_top": "pos",
+    # the empty program is a query too (yields its input once), through every channel
+    "empty": "",
 }
 ARGSETS = {
     "none": [],
@@ -154,7 +156,7 @@ def expectation(d, query, files, argset, flags, openable):
                 out += (header + b":" if with_header else b"") + b"%d\n" % len(res)
         else:
             for st in res:
-                vals = st.split(" ")
+                vals = [] if st == "-" else st.split(" ")     # "-" = the empty stack: a result, nothing to print for it
                 if with_header:
                     out += header + b":\n"
                 if len(vals) > 1:
